@@ -2429,4 +2429,21 @@ pub mod verif {
             opts.peer_condition(),
         )
     }
+
+    /// A [`ProtocolsChange`](crate::handler::ProtocolsChange) over the given protocols (its
+    /// constructors are crate-private): `Added` if `added`, else `Removed`.
+    pub fn protocols_change(
+        added: bool,
+        protocols: &[crate::StreamProtocol],
+    ) -> crate::handler::ProtocolsChange<'_> {
+        if added {
+            crate::handler::ProtocolsChange::Added(crate::handler::ProtocolsAdded {
+                protocols: protocols.iter(),
+            })
+        } else {
+            crate::handler::ProtocolsChange::Removed(crate::handler::ProtocolsRemoved {
+                protocols: protocols.iter(),
+            })
+        }
+    }
 }
